@@ -214,6 +214,117 @@ theorem markAll_no_panic (hasDb : Bool) (s : Store) (n : WN) (keys : List (List 
     · rename_i e he; intro hp; simp only [Option.some.injEq] at hp; subst hp; exact hm he
     · exact ih _
 
+theorem hashCost_setClean (n : WN) : hashCost (setClean n) = 0 := by cases n <;> simp [setClean, hashCost]
+
+theorem hashCost_deserializeChild (c : Bytes) (n : WN) (h : deserializeChild c = .ok (some n)) : hashCost n = 0 := by
+  unfold deserializeChild at h
+  repeat' (split at h)
+  all_goals first
+    | (simp at h; done)
+    | (simp only [Res.ok.injEq, Option.some.injEq] at h; subst h; simp [hashCost])
+
+theorem hashCost_deserializeChildren (cs : List Bytes) (ns : List WN) (w : Nat)
+    (h : deserializeChildren cs = .ok (ns, w)) : ∀ n ∈ ns, hashCost n = 0 := by
+  induction cs generalizing ns w with
+  | nil => simp [deserializeChildren] at h; intro n hn; rw [h.1] at hn; cases hn
+  | cons c rest ih =>
+    simp only [deserializeChildren] at h
+    split at h
+    · simp at h
+    · rename_i o ho
+      split at h
+      · simp at h
+      · rename_i ns' w' hr
+        split at h
+        · simp only [Res.ok.injEq, Prod.mk.injEq] at h
+          intro n hn; rw [← h.1] at hn
+          rcases List.mem_cons.mp hn with rfl | hn
+          · exact hashCost_deserializeChild c _ ho
+          · exact ih ns' w' hr n hn
+        · simp only [Res.ok.injEq, Prod.mk.injEq] at h
+          intro n hn; rw [← h.1] at hn
+          rcases List.mem_cons.mp hn with rfl | hn
+          · simp [hashCost]
+          · exact ih ns' w' hr n hn
+
+theorem hashCost_ofList (ns : List WN) (h : ∀ n ∈ ns, hashCost n = 0) (i : Nib) : hashCost (ofList ns i) = 0 := by
+  unfold ofList
+  by_cases hi : i.val < ns.length
+  · simp only [List.getD, List.getElem?_eq_getElem hi, Option.getD_some]; exact h _ (List.getElem_mem hi)
+  · simp only [List.getD, List.getElem?_eq_none (by omega : ns.length ≤ i.val), Option.getD_none]; simp [hashCost]
+
+/-- the children of a freshly decoded branch are clean -/
+theorem hashCost_children_deserializeNode (p : PBase) (h : Bytes) (ch : Nib → WN) (w : Nat) (d tc : Bool)
+    (hd : deserializeNode p = .ok (.routing h ch w d tc)) : ∀ i, hashCost (ch i) = 0 := by
+  unfold deserializeNode at hd
+  repeat' (split at hd)
+  all_goals first
+    | (simp at hd; done)
+    | (simp only [Res.ok.injEq, WN.routing.injEq] at hd
+       obtain ⟨_, rfl, _⟩ := hd
+       intro i; exact hashCost_ofList _ (hashCost_deserializeChildren _ _ _ ‹_›) i)
+
+theorem sum_zero_of_all_zero (l : List Nat) (h : ∀ x ∈ l, x = 0) : l.sum = 0 := by
+  induction l with
+  | nil => rfl
+  | cons a l ih => simp [h a (by simp), ih (fun x hx => h x (List.mem_cons_of_mem _ hx))]
+
+/-- with the fix, verifying a proof costs one hash per proof element consumed: linear -/
+theorem verifyCost_linear (ps : List PairD) (block : Nat) (n : WN) (k : Nat)
+    (h : verifyCost true ps block = some (n, k)) : k ≤ ps.length ∧ hashCost n = 0 := by
+  induction ps generalizing block n k with
+  | nil => simp [verifyCost] at h
+  | cons q rest ih =>
+    cases q with
+    | nilPair => simp [verifyCost] at h
+    | bad => simp [verifyCost] at h
+    | ok p =>
+      simp only [verifyCost] at h
+      split at h
+      · simp at h
+      · rename_i nd hd
+        split at h
+        · rename_i hh ch w d tc
+          split at h
+          · simp at h
+          · rename_i i b' hp
+            split at h
+            · simp at h
+            · rename_i c k' hr
+              simp only [if_true, Option.some.injEq, Prod.mk.injEq] at h
+              obtain ⟨hc1, hc2⟩ := ih b' c k' hr
+              have hch := hashCost_children_deserializeNode p hh ch w d tc hd
+              have hs : (allNib.map (fun j => hashCost (upd ch i c j))).sum = 0 := by
+                apply sum_zero_of_all_zero
+                intro x hx
+                obtain ⟨j, _, rfl⟩ := List.mem_map.mp hx
+                by_cases hj : j = i <;> simp [upd, hj, hc2, hch]
+              refine ⟨?_, by rw [← h.1]; exact hashCost_setClean _⟩
+              rw [← h.2]; simp only [hashCost, if_true, hs, List.length_cons]; omega
+        · rename_i kk hh c d tc
+          split at h
+          · simp at h
+          · split at h
+            · simp at h
+            · rename_i c' k' hr
+              simp only [if_true, Option.some.injEq, Prod.mk.injEq] at h
+              obtain ⟨hc1, hc2⟩ := ih block c' k' hr
+              refine ⟨?_, by rw [← h.1]; exact hashCost_setClean _⟩
+              rw [← h.2]; simp only [hashCost, if_true, hc2, List.length_cons]; omega
+        · split at h
+          · simp at h
+          · simp only [if_true, Option.some.injEq, Prod.mk.injEq] at h
+            refine ⟨?_, by rw [← h.1]; exact hashCost_setClean _⟩
+            rw [← h.2]; simp [hashCost]
+        · simp at h
+
+
+/-- before 75bbdaf (flag kept) every level hashes everything below it again: 4 + 3 + 2 + 1 = 10 hash computations for
+    4 elements (n(n+1)/2); with the fix: 4 -/
+theorem verifyCost_old_quadratic_witness :
+    (verifyCost false chainProof 1).map (·.2) = some 10 ∧ (verifyCost true chainProof 1).map (·.2) = some 4 := by
+  decide
+
 end Verif.Wmpt
 
 namespace Verif.Props.C15WmptOps
@@ -341,5 +452,17 @@ theorem hexToKeybytes_fixed_witness : hexToKeybytes [1, 2, 3] = .err .invalidKey
 /-- 527796b reverted: a storage-less trie whose root is a reference (the import of an export of no keys) -/
 theorem getPath_old_panics : getPathRootOld { root := .hashRef [1] 0, hasDb := false } = .err .panic := by
   simp [getPathRootOld]
+
+/-! ### "promptly": VerifyBlockProof is linear in the number of proof elements (fix 75bbdaf) -/
+
+/-- with the fix, the number of hash computations of `verifyProof` is at most the number of proof elements (c = 1, c' = 0),
+    and the rebuilt node is clean.  (`verifyCost` counts over shapes and dirty flags only; the cost of one hash is
+    linear in the element's size.) -/
+theorem wmpt_verify_steps_linear (ps : List PairD) (block : Nat) (n : WN) (k : Nat)
+    (h : verifyCost true ps block = some (n, k)) : k ≤ ps.length := (verifyCost_linear ps block n k h).1
+
+/-- non-vacuity and contrast: the 4-element chain costs 4 with the fix and 10 = 4·5/2 before it -/
+theorem wmpt_verify_old_quadratic : (verifyCost false chainProof 1).map (·.2) = some 10 ∧
+    (verifyCost true chainProof 1).map (·.2) = some 4 := verifyCost_old_quadratic_witness
 
 end Verif.Props.C15WmptOps
